@@ -4,6 +4,10 @@
 #include "gm2calc/gm2_2loop.hpp"
 #include "gm2calc/gm2_uncertainty.hpp"
 #include "gm2_uncertainty_helpers.hpp"
+extern "C" {
+#include "gm2calc/gm2_uncertainty.h"
+#include "gm2_uncertainty_helpers.h"
+}
 
 using namespace gm2calc;
 using vh::J;
@@ -25,7 +29,7 @@ int main(int argc, char** argv) {
          gen::MssmPoint p = gen::rand_mssm(r, lightspec ? 100 : 100, lightspec ? 500 : 5000, 1.5, 80);
          J c = p.json(); c.str("model", "MSSM");
          try {
-            MSSMNoFV_onshell m = gen::make_mssm(p);
+            gm2calc::MSSMNoFV_onshell m = gen::make_mssm(p);
             const double a1 = calculate_amu_1loop(m), a2 = calculate_amu_2loop(m);
             if (!fin(a1) || !fin(a2)) { ++o.inconclusive; o.count("mssm-nonfinite-amu"); continue; }
             const double u0 = calculate_uncertainty_amu_0loop(m), u1 = calculate_uncertainty_amu_1loop(m), u2 = calculate_uncertainty_amu_2loop(m);
@@ -50,6 +54,14 @@ int main(int argc, char** argv) {
                const double x = r.U(-1, 1) * 1e-8;
                if (!vh::same_bits(calculate_uncertainty_amu_0loop(m, x), std::fabs(x))) o.fail("C18:MSSM:overload0-arg", "0-loop overload ignores its argument", c);
                if (!vh::same_bits(calculate_uncertainty_amu_1loop(m, x), std::fabs(x) + u2)) o.fail("C18:MSSM:overload1-arg", "1-loop overload ignores its argument", c);
+               // the same relations through the C entry points (public functions and the helpers of gm2_uncertainty_helpers.h that the Mathematica interface uses)
+               { const ::MSSMNoFV_onshell* h = reinterpret_cast<const ::MSSMNoFV_onshell*>(&m);
+                 if (!vh::same_bits(gm2calc_mssmnofv_calculate_uncertainty_amu_0loop(h), u0) || !vh::same_bits(gm2calc_mssmnofv_calculate_uncertainty_amu_1loop(h), u1) || !vh::same_bits(gm2calc_mssmnofv_calculate_uncertainty_amu_2loop(h), u2))
+                    o.fail("C18:MSSM:C-entry-points", "the C functions gm2calc_mssmnofv_calculate_uncertainty_amu_{0,1,2}loop differ from the C++ functions", c);
+                 if (!vh::same_bits(gm2calc_mssmnofv_calculate_uncertainty_amu_0loop_amu1L(h, x), std::fabs(x)) || !vh::same_bits(gm2calc_mssmnofv_calculate_uncertainty_amu_0loop_amu1L(h, a1), u0))
+                    o.fail("C18:MSSM:C-helper0", "gm2calc_mssmnofv_calculate_uncertainty_amu_0loop_amu1L != |a1L|", c);
+                 if (!vh::same_bits(gm2calc_mssmnofv_calculate_uncertainty_amu_1loop_amu2L(h, x), std::fabs(x) + u2) || !vh::same_bits(gm2calc_mssmnofv_calculate_uncertainty_amu_1loop_amu2L(h, a2), u1))
+                    o.fail("C18:MSSM:C-helper1", "gm2calc_mssmnofv_calculate_uncertainty_amu_1loop_amu2L != |a2L| + delta(2L)", c); }
             }
             o.sample(c, 2);
          } catch (const Error&) { ++o.inconclusive; o.count("mssm-rejected"); }
@@ -97,6 +109,12 @@ int main(int argc, char** argv) {
                const double v2 = calculate_uncertainty_amu_2loop(m, x, y);
                if (!(rel(v2, 2e-12 + (std::fabs(x) + std::fabs(y)) * d) <= 1e-14)) o.fail("C18:THDM:overload2-arg", "2-loop overload ignores its arguments", c);
                if (!vh::same_bits(calculate_uncertainty_amu_1loop(m, x, y), std::fabs(y) + v2)) o.fail("C18:THDM:overload1-arg", "1-loop overload ignores its arguments", c);
+               { const gm2calc_THDM* h = reinterpret_cast<const gm2calc_THDM*>(&m);
+                 if (!vh::same_bits(gm2calc_thdm_calculate_uncertainty_amu_0loop(h), u0) || !vh::same_bits(gm2calc_thdm_calculate_uncertainty_amu_1loop(h), u1) || !vh::same_bits(gm2calc_thdm_calculate_uncertainty_amu_2loop(h), u2))
+                    o.fail("C18:THDM:C-entry-points", "the C functions gm2calc_thdm_calculate_uncertainty_amu_{0,1,2}loop differ from the C++ functions", c);
+                 if (!vh::same_bits(gm2calc_thdm_calculate_uncertainty_amu_0loop_amu1L_amu2L(h, x, y), std::fabs(x) + std::fabs(y)) || !vh::same_bits(gm2calc_thdm_calculate_uncertainty_amu_2loop_amu1L_amu2L(h, x, y), v2)
+                     || !vh::same_bits(gm2calc_thdm_calculate_uncertainty_amu_1loop_amu1L_amu2L(h, x, y), std::fabs(y) + v2))
+                    o.fail("C18:THDM:C-helpers", "the helpers gm2calc_thdm_calculate_uncertainty_amu_{0,1,2}loop_amu1L_amu2L differ from the C++ overloads", c); }
             }
             o.sample(c, 2);
          } catch (const Error&) { ++o.inconclusive; o.count("thdm-rejected"); }
